@@ -1897,16 +1897,31 @@ fn propagate_section_attributes<'data, P: Platform>(
 ) {
     timing_phase!("Propagate section attributes");
 
+    // First merge the attributes from all groups, then apply the result once per output section.
+    // Applying each group's attributes separately would make properties like entsize, which need
+    // to be consistent across all input sections, depend on how input files were split into
+    // groups (only the last group to contribute to a section would count).
+    let mut merged = output_sections.new_section_map::<Option<P::SectionAttributes>>();
+
     for group_state in group_states {
         group_state
             .common
             .section_attributes
             .for_each(|section_id, attributes| {
                 if let Some(attributes) = attributes {
-                    attributes.apply(output_sections, section_id);
+                    match merged.get_mut(section_id) {
+                        Some(existing) => existing.merge(*attributes),
+                        slot @ None => *slot = Some(*attributes),
+                    }
                 }
             });
     }
+
+    merged.for_each(|section_id, attributes| {
+        if let Some(attributes) = attributes {
+            attributes.apply(output_sections, section_id);
+        }
+    });
 }
 
 /// This is similar to computing start addresses, but is used for things that aren't addressable,
